@@ -30,6 +30,7 @@ func init() {
 
 func runC15(c *engine.Ctx, tier string) {
 	loopVarAddress(c)
+	identityComponents(c)
 	conditionalUpdates(c)
 	recordFieldOwnership(c)
 	for _, rel := range storePkgs {
@@ -43,6 +44,9 @@ func runC15(c *engine.Ctx, tier string) {
 		}
 		versionStamping(c, "C15.8/"+short, rel, rel == pkgStoreTxV2, 4)
 		eventMapping(c, "C15.9/"+short, rel)
+		if rel != pkgStorePropV2 {
+			drainOnExit(c, "C15.11/"+short, rel, 2)
+		}
 	}
 }
 
@@ -799,6 +803,171 @@ func loopVarAddress(c *engine.Ctx) {
 						Msg: "&" + id.Name + " is the address of a loop variable; the module is built with go " + goVer + " loop semantics (one variable for the whole loop), so whatever keeps this pointer sees the last iteration's value"})
 					return true
 				})
+				return true
+			})
+		}
+	}
+}
+
+// drainOnExit: C15.11 — a watch goroutine that leaves keeps its per-watch channel drained.
+func drainOnExit(c *engine.Ctx, id, rel string, min int) {
+	o := c.Custom(id, "K-must(drain on exit)", "every return of the goroutine Watch starts — the one that owns the per-watch channel the dispatcher sends to — is preceded on its path by `go func() { for range eventCh {} }()`, or that drain is started unconditionally by the goroutine's deferred clean-up",
+		"the dispatcher copies the watcher list under the lock and sends outside it: a send to a channel whose reader has left blocks the store's only dispatcher for ever, for every watcher")
+	defer o.Done(min)
+	paths, err := storePaths(c, rel)
+	if err != nil {
+		o.Undecided(rel, err.Error())
+		return
+	}
+	reported := map[string]bool{}
+	seen := map[string]bool{}
+	for _, p := range paths {
+		if p.Lit == nil || !strings.Contains(p.Root.Name(), "Store.Watch") {
+			continue
+		}
+		// the owning goroutine: its literal contains a receive from the per-watch channel
+		owns := ""
+		ast.Inspect(p.Lit.Body, func(n ast.Node) bool {
+			if fl, ok := n.(*ast.FuncLit); ok && fl != p.Lit {
+				return false
+			}
+			if u, ok := n.(*ast.UnaryExpr); ok && u.Op == token.ARROW {
+				if id, ok := u.X.(*ast.Ident); ok && strings.HasSuffix(strings.ToLower(id.Name), "ch") && id.Name != "ch" {
+					owns = id.Name
+				}
+			}
+			return true
+		})
+		if owns == "" {
+			continue
+		}
+		// a drain started by the goroutine's deferred clean-up covers every exit
+		deferredDrain := false
+		isDrain := func(gs *ast.GoStmt) bool {
+			fl, ok := gs.Call.Fun.(*ast.FuncLit)
+			if !ok || len(fl.Body.List) != 1 {
+				return false
+			}
+			rs, ok := fl.Body.List[0].(*ast.RangeStmt)
+			if !ok {
+				return false
+			}
+			id, ok := rs.X.(*ast.Ident)
+			return ok && id.Name == owns && len(rs.Body.List) == 0
+		}
+		for _, st := range p.Lit.Body.List {
+			ds, ok := st.(*ast.DeferStmt)
+			if !ok {
+				continue
+			}
+			if fl, ok := ds.Call.Fun.(*ast.FuncLit); ok {
+				for _, inner := range fl.Body.List { // unconditionally, at the top level of the clean-up
+					if gs, ok := inner.(*ast.GoStmt); ok && isDrain(gs) {
+						deferredDrain = true
+					}
+				}
+			}
+		}
+		last := &p.Events[len(p.Events)-1]
+		if last.Kind != engine.EvReturn {
+			continue
+		}
+		pos := c.P.Pos(last.Pos)
+		// the position of the return statement itself distinguishes the exits
+		// returns are reported at the end of the literal (deferred clean-up): name the exit by the last
+		// thing the goroutine did before it
+		var retPos string
+		for i := len(p.Events) - 2; i >= 0; i-- {
+			e := &p.Events[i]
+			if e.Deferred || e.Kind == engine.EvReturn || e.Kind == engine.EvLoopExit || e.Kind == engine.EvLoopEnter || e.Kind == engine.EvGo {
+				continue
+			}
+			if e.Kind == engine.EvCall && (strings.HasSuffix(e.CalleeName, "Unlock") || strings.HasSuffix(e.CalleeName, "Lock") || e.CalleeName == "delete" || e.CalleeName == "len") {
+				continue
+			}
+			retPos = c.P.Pos(e.Pos)
+			break
+		}
+		if retPos == "" {
+			retPos = pos
+		}
+		if !seen[retPos] {
+			seen[retPos] = true
+			o.Site(retPos + " exit of the watch goroutine (" + owns + ")")
+		}
+		o.Eval(1)
+		drained := deferredDrain
+		for i := range p.Events {
+			e := &p.Events[i]
+			if e.Kind != engine.EvGo {
+				continue
+			}
+			gs, ok := e.Node.(*ast.GoStmt)
+			if !ok {
+				continue
+			}
+			fl, ok := gs.Call.Fun.(*ast.FuncLit)
+			if !ok || len(fl.Body.List) != 1 {
+				continue
+			}
+			if rs, ok := fl.Body.List[0].(*ast.RangeStmt); ok {
+				if id, ok := rs.X.(*ast.Ident); ok && id.Name == owns && len(rs.Body.List) == 0 {
+					drained = true
+				}
+			}
+		}
+		if !drained && !reported[retPos] {
+			reported[retPos] = true
+			o.Fail(&engine.Violation{Key: p.Root.Name()[:strings.Index(p.Root.Name()+"$", "$")] + "|watch goroutine leaves without draining " + owns, Pos: retPos, Func: p.Root.Name(),
+				Msg: "the watch goroutine returns here without starting a drain of " + owns + ": an event the dispatcher is about to send to it blocks the dispatcher for ever"})
+		}
+	}
+}
+
+// identityComponents: C15.12 — every name or key derived from a target uses its whole identity.
+func identityComponents(c *engine.Ctx) {
+	o := c.Custom("C15.12", "agreement(identity components)", "in the store packages, a fmt.Sprintf that formats x.ID of a config Target also formats x.Type and x.Version of the same x",
+		"the log of a target, its entry in the shared registry and the local cache must agree on what 'the same target' is: a key without the version makes two versions of a device overwrite each other in the registry while their logs stay apart")
+	defer o.Done(2)
+	for _, rel := range storePkgs {
+		pkg := c.P.Pkg(rel)
+		if pkg == nil {
+			continue
+		}
+		info := pkg.TypesInfo
+		for _, fi := range c.P.FuncsOf(pkg) {
+			ast.Inspect(fi.Decl.Body, func(n ast.Node) bool {
+				call, ok := n.(*ast.CallExpr)
+				if !ok || types.ExprString(call.Fun) != "fmt.Sprintf" {
+					return true
+				}
+				comps := map[string]map[string]bool{} // base expression -> fields formatted
+				for _, a := range call.Args[1:] {
+					sel, ok := ast.Unparen(a).(*ast.SelectorExpr)
+					if !ok {
+						continue
+					}
+					t := info.TypeOf(sel.X)
+					if t == nil || !strings.HasSuffix(strings.TrimPrefix(t.String(), "*"), ".Target") {
+						continue
+					}
+					base := types.ExprString(sel.X)
+					if comps[base] == nil {
+						comps[base] = map[string]bool{}
+					}
+					comps[base][sel.Sel.Name] = true
+				}
+				for base, f := range comps {
+					if !f["ID"] {
+						continue
+					}
+					o.Site(c.P.Pos(call.Pos()) + " " + types.ExprString(call))
+					o.Eval(1)
+					if !f["Type"] || !f["Version"] {
+						o.Fail(&engine.Violation{Key: fi.Name() + "|name of " + base + " without its whole identity", Pos: c.P.Pos(call.Pos()), Func: fi.Name(),
+							Msg: types.ExprString(call) + " formats " + base + ".ID without " + base + ".Type and " + base + ".Version: two targets that differ only in what is left out share this name"})
+					}
+				}
 				return true
 			})
 		}
